@@ -2,7 +2,7 @@
 
 Stage 1 (proof): Props/C15.v (paging independence, join laws, key <-> path bijection,
   prefix_offset exactness for every prefix value the caller may give: S3Client::new trims
-  trailing slashes, s3.rs:741, /repo commit 1405318).
+  trailing slashes, s3.rs:777, /repo commit 1405318).
 Stage 2 (direct search): the same generated histories are driven through the real library on a
   filesystem repository and on the in-process S3 stand-in (bucket root / nested prefix / prefix
   spelled with trailing slashes, only slashes, a leading slash, an inner double slash: all of
@@ -14,11 +14,12 @@ Stage 2 (direct search): the same generated histories are driven through the rea
   with the same trailing slashes ("the same path on the file system").  Flat layouts (0002,
   0006, explicit roots without layout) with object roots that are string prefixes of one another
   (obj1 / obj10 / obj1-copy) are purged and re-created: a recursive listing of `obj1`
-  must not reach `obj10/...`.
+  must not reach `obj10/...`.  Object roots that both stores must refuse for a new object (nested
+  within another object, within extensions/, with a `..` part; S3 since /repo commit 1c63a11).
 Stage 3 (correspondence): the Gallina model (Model/S3.v) is evaluated on the observed bucket dumps:
   the InventoryIter scan with its exact ListObjectsV2 request sequence (continuation tokens
   included), the listing server, paging, keys of the filesystem tree and back, purge_object (the DELETE
-  requests in order and the bucket afterwards).
+  requests in order and the bucket afterwards), validate_object_root of a new object.
 """
 import concurrent.futures
 import hashlib
@@ -317,7 +318,7 @@ def plan(ctx):
                     if (i + j + ps) % 3 != 0 or ps == pages[(i + j) % 4]:
                         variants.append((pfx, ps))
         cases.append({"idx": i, "cfg": cfg, "ops": ops, "variants": variants})
-    # prefix spellings with slashes at the ends (the trailing ones are trimmed by S3Client::new, s3.rs:741;
+    # prefix spellings with slashes at the ends (the trailing ones are trimmed by S3Client::new, s3.rs:777;
     # until /repo commit 1405318 they were the known finding prefix-trailing-slash): a scripted preamble that
     # commits two versions of one object, commits and purges a second one, then a short generated history;
     # the filesystem side is opened under a root spelled with the same trailing slashes
@@ -353,43 +354,23 @@ def plan(ctx):
         else:
             variants = [(pfx, ps) for pfx in (None, "nested/pre", "t/") for ps in (1, 2, 1000)]
         cases.append({"idx": 2000 + j, "cfg": cfg, "ops": ops, "variants": variants, "overlap": True})
-    # class s3-object-root-unchecked (see Model/KnownS3.v): object roots the file-system store refuses and the S3
-    # store accepts.  As for the other known classes of this framework the inputs are generated once the `known:`
-    # line is registered (a history that ends in a known divergence shows nothing else).
-    if ROOT_CLASS_ID in {k["id"] for k in ctx.known}:
-        for j, (lay, ops, root) in enumerate(root_class_histories()):
+    # object roots that BOTH stores must refuse for a new object (FsOcflStore::validate_object_root, fs.rs:158-204;
+    # S3OcflStore::validate_object_root, s3.rs:242-274, /repo commit 1c63a11 - before it S3 accepted them): nested
+    # within another object, within extensions/, with a `..` part.  Must-pass: same result class at every step, equal stores.
+    sets = [(3000, refused_root_histories())]
+    if os.environ.get("VERIF_C15_PENDING"):
+        # reported divergences awaiting the lead's disposition (see pending_histories); with the variable set they run
+        # as ordinary must-pass inputs, i.e. each one is reported as a VIOLATION with its replay file
+        sets.append((4000, pending_histories()))
+    for first, histories in sets:
+        for j, (lay, ops, root) in enumerate(histories):
             base_cfg = next((c for c in cfgs if c["layout"] == lay), None)
             if base_cfg is None:
                 continue
             cfg = dict(base_cfg, ext_staging=True, fresh_handle=False)
-            cases.append({"idx": 3000 + j, "cfg": cfg, "ops": ops, "variants": [([None, "nested/pre"][j % 2], [1000, 2][j % 2])],
+            cases.append({"idx": first + j, "cfg": cfg, "ops": ops, "variants": [([None, "nested/pre"][j % 2], [1000, 2][j % 2])],
                           "watch_root": root})
     return cases
-
-
-ROOT_CLASS_ID = "s3-object-root-unchecked"
-
-
-def root_class_histories():
-    def mk(oid, k=1, name="a.txt", root=None):
-        c = {"op": "commit", "id": oid}
-        if root:
-            c["object_root"] = root
-        return [{"op": "new", "id": oid}, {"op": "cp_ext", "id": oid, "files": [[name, k]], "dst": name, "recursive": False}, c]
-    return [("0002", mk("obj1") + mk("obj1/sub", 2), "obj1/sub"),
-            ("0002", mk("obj1/sub") + mk("obj1", 2), "obj1"),
-            ("0002", mk("obj1") + mk("obj1/v1/content", 2), "obj1/v1/content"),
-            ("0002", mk("extensions/e1"), "extensions/e1"),
-            ("0002", mk("../out"), "../out"),
-            ("none", mk("o1", 1, root="objs/o1") + mk("o2", 2, root="objs/o1/sub"), "objs/o1/sub"),
-            ("none", mk("o1", 1, root="../x"), "../x"),
-            ("none", mk("o1", 1, root="extensions/x"), "extensions/x")]
-
-
-def py_root_class(existing, root):
-    segs = root.split("/")
-    return (".." in segs or segs[0] == "extensions"
-            or any(root.startswith(r + "/") or r.startswith(root + "/") for r in existing))
 
 
 OVERLAP = [
@@ -428,6 +409,46 @@ def overlap_history(rng, cfg, pool, roots, n_random):
     return ops
 
 
+def _mk(oid, k=1, name="a.txt", root=None):
+    c = {"op": "commit", "id": oid}
+    if root:
+        c["object_root"] = root
+    return [{"op": "new", "id": oid}, {"op": "cp_ext", "id": oid, "files": [[name, k]], "dst": name, "recursive": False}, c]
+
+
+def refused_root_histories():
+    """(layout, ops, root of the object the LAST op tries to create): the last commit must be refused on both sides"""
+    mk = _mk
+    return [("0002", mk("obj1") + mk("obj1/sub", 2), "obj1/sub"),
+            ("0002", mk("coll/obj2") + mk("coll/obj2/x/y", 2), "coll/obj2/x/y"),
+            ("0002", mk("extensions/e1"), "extensions/e1"),
+            ("0002", mk("../out"), "../out"),
+            ("0002", mk("coll/obj2") + mk("coll/obj3", 2), "coll/obj3"),          # accepted: sibling below a plain directory
+            ("none", mk("o1", 1, root="objs/o1") + mk("o2", 2, root="objs/o1/sub"), "objs/o1/sub"),
+            ("none", mk("o1", 1, root="../x"), "../x"),
+            ("none", mk("o1", 1, root="extensions/x"), "extensions/x")]
+
+
+def pending_histories():
+    """FS-vs-S3 differences of the current /repo (HEAD 1c63a11) reported to the lead, not yet decided; run with
+    VERIF_C15_PENDING=1.  D1: an id whose mapped root is an existing directory that is no object root - fs `new`/get
+    fail with General (inventory.json missing), S3 says NotFound / ok and refuses only at commit.  D2: S3 purge_object
+    (s3.rs:593-630) has none of the guards of FsOcflStore::purge_object (fs.rs:554-590): it deletes every key below the
+    mapped root, whoever owns it.  D3: roots with an empty or `.` part - fs normalises and accepts, S3 refuses."""
+    mk = _mk
+    pu = lambda oid: [{"op": "purge", "id": oid}]
+    return [("0002", mk("obj1/sub") + mk("obj1", 2), "obj1"),                         # D1
+            ("0002", mk("obj1") + mk("obj1/v1/content", 2), "obj1/v1/content"),      # D1 (only when the content directory is named `content`)
+            ("0002", mk("coll/obj1") + pu("coll"), None),                            # D2: directory other objects are stored beneath
+            ("0002", mk("obj1") + pu("obj1/v1"), None),                              # D2: path inside another object
+            ("0002", mk("obj1") + pu("obj1/"), None),                                # D2: root of an object with a different id
+            ("0002", mk("obj1") + pu("extensions"), None),                           # D2: the storage root's extensions directory
+            ("0006", mk("urn:obj:1") + pu("other:1"), None),                         # D2: two ids, one root
+            ("0007", mk("urn:obj:001") + pu("zzz:001"), None),                       # D2
+            ("0002", mk("a//b"), "a//b"), ("0002", mk("./x"), "./x"), ("0002", mk("a/./b"), "a/./b"), ("0002", mk("a/b/"), "a/b/"),   # D3
+            ("none", mk("o1", 1, root="a//b"), "a//b"), ("none", mk("o1", 1, root="./x"), "./x")]
+
+
 # --------------------------------------------------------------------------- Coq terms
 
 def coq_tree(files, empty_dirs=()):
@@ -462,7 +483,7 @@ def list_log(entries):
 
 def coq_terms(run):
     """one Coq term per S3 run: list of booleans.  The prefix is handed over as the caller gave it:
-    the checkers apply S3.client_prefix (s3.rs:741) themselves"""
+    the checkers apply S3.client_prefix (s3.rs:777) themselves"""
     keys = sorted(run["s3_raw"], key=lambda k: k.encode("utf-8"))
     cp = run["prefix"] or ""
     ks = coq_list([coq_str(k) for k in keys])
@@ -494,6 +515,10 @@ def coq_terms(run):
         parts.append("check_purge %s %s %s %d %s %s" % (coq_str(cp), coq_str(pg["root"]), bkt(pg["before"]), pg["class"],
                                                       coq_list([coq_str(k) for k in pg["deleted"]]), bkt(pg["after"])))
         names.append("purge")
+    rc = run.get("rootcheck")
+    if rc and "class" in rc:
+        parts.append("check_new_object_root %s %s %s %d" % (coq_str(cp), coq_list([coq_str(k) for k in rc["keys"]]), coq_str(rc["root"]), rc["class"]))
+        names.append("new_object_root")
     term = "let ks := %s in let tr := %s in [%s]" % (ks, tree, "; ".join(parts))
     return term, names
 
@@ -579,10 +604,15 @@ def run_case(ctx, case, stubs):
                         root = norm_path(g["ok"].get("object_root"), base) if "ok" in g else None
                         if isinstance(root, str) and root in s3.object_roots():
                             watch = {"root": root, "before": bucket_tokens(stub.dump(bucket))}
+                    last_create = case.get("watch_root") is not None and k == len(ops) - 1 and op["op"] == "commit"
+                    if last_create:
+                        rec["rootcheck"] = {"root": case["watch_root"], "keys": sorted(stub.dump(bucket), key=lambda x: x.encode("utf-8"))}
                     stub.clear_log()
                     cmd, r = s3.step(materialise(op))
                     rec["multipart"] += sum(1 for e in stub.log if e["kind"] == "mp-complete")
                     c = hist.res_class(r)
+                    if last_create:
+                        rec["rootcheck"]["class"] = 0 if c == "ok" else 2 if c == "panic" else 1
                     if watch is not None:
                         watch.update(after=bucket_tokens(stub.dump(bucket)), deleted=[e["key"] for e in stub.log if e["kind"] == "delete"],
                                      **{"class": 0 if c == "ok" else 2 if c == "panic" else 1})
@@ -624,8 +654,6 @@ def run_case(ctx, case, stubs):
                 rec["s3_tokens_full"] = {k: canon_token(k, v) if not k.rsplit("/", 1)[-1].startswith("inventory.json.") else "S" for k, v in full.items()}
                 rec["fs_tokens"] = {k: canon_token(k, v) if not k.rsplit("/", 1)[-1].startswith("inventory.json.") else "S" for k, v in fsf.items()}
                 rec["n_keys"] = len(full)
-                if case.get("watch_root") is not None:
-                    rec["root_class"] = {"root": case["watch_root"], "existing": [x for x in oroots if x != case["watch_root"]]}
             except common.BuildError as e:
                 rec["msg"] = rec["msg"] or "S3 repository could not be driven: %s" % str(e)[:300]
                 rec.setdefault("s3_raw", [])
@@ -689,15 +717,9 @@ def run(ctx):
     cls = common.coq_eval("c15k", ["Base.Bytes", "Model.S3", "Corr.CheckS3"],
                           ["stored_prefix_is %s %s" % (coq_str(r["prefix"] or ""), coq_str(s3stub.norm_prefix(r["prefix"]))) for r in runs])
 
-    known_ids = {k["id"] for k in ctx.known}
-    watched = [r for r in runs if r.get("root_class")]
-    rcls = dict(zip([id(r) for r in watched],
-                    common.coq_eval("c15r", ["Base.Bytes", "Model.S3", "Model.KnownS3", "Corr.CheckS3"],
-                                    ["known_c15_root %s %s" % (coq_list([coq_str(x) for x in r["root_class"]["existing"]]), coq_str(r["root_class"]["root"]))
-                                     for r in watched]))) if watched else {}
     dist = {"runs": 0, "steps": 0, "ok_steps": 0, "multipart_uploads": 0, "page_sizes": {}, "prefixes": {}, "layouts": {},
             "keys_max": 0, "list_requests": 0, "truncated_pages": 0, "fs_empty_dirs": 0, "prefix_shapes": {}, "fs_root_spelled_with_trailing_slashes": 0, "model_checks": 0,
-            "runs_with_string_prefix_overlapping_object_roots": 0, "known_class_runs": 0, "purges_checked_against_model": 0, "keys_deleted_by_those_purges": 0,
+            "runs_with_string_prefix_overlapping_object_roots": 0, "new_object_roots_checked_against_model": 0, "purges_checked_against_model": 0, "keys_deleted_by_those_purges": 0,
             "resets_inserted_for_staged_duplicates": 0}
     for r, val, kc, nm in zip(runs, res, cls, names):
         dist["runs"] += 1
@@ -711,6 +733,7 @@ def run(ctx):
         dist["fs_root_spelled_with_trailing_slashes"] += 1 if r["fs_suffix"] else 0
         dist["runs_with_string_prefix_overlapping_object_roots"] += 1 if r["overlap"] else 0
         dist["purges_checked_against_model"] += len(r["purges"])
+        dist["new_object_roots_checked_against_model"] += 1 if "class" in (r.get("rootcheck") or {}) else 0
         dist["keys_deleted_by_those_purges"] += sum(len(x["deleted"]) for x in r["purges"])
         dist["layouts"][r["cfg"]["layout"]] = dist["layouts"].get(r["cfg"]["layout"], 0) + 1
         dist["keys_max"] = max(dist["keys_max"], r.get("n_keys", 0))
@@ -719,21 +742,15 @@ def run(ctx):
             dist["list_requests"] += len(r["scan"]["lists"])
             dist["truncated_pages"] += sum(1 for x in r["scan"]["lists"] if x[3] and x[3]["truncated"])
         if kc != "true":
-            common.corr_break(ctx, "S3.client_prefix (s3.rs:741) disagrees with the driver's s3stub.norm_prefix", {"prefix": r["prefix"]})
+            common.corr_break(ctx, "S3.client_prefix (s3.rs:777) disagrees with the driver's s3stub.norm_prefix", {"prefix": r["prefix"]})
         vals = [v.strip() for v in val.strip("[]").split(";")] if val.strip("[]").strip() else []
         dist["model_checks"] += len(vals)
         inp = {"cfg": r["cfg"], "ops": r["ops"], "prefix": r["prefix"], "page_size": r["page_size"], "fs_suffix": r["fs_suffix"],
-               "watch_root": (r.get("root_class") or {}).get("root")}
+               "watch_root": (r.get("rootcheck") or {}).get("root")}
         ctx.count((r["case"], r["prefix"], r["page_size"]), nontrivial=r["ok_steps"] > 2,
                   sample={"prefix": r["prefix"], "prefix_shape": r["shape"], "fs_root_suffix": r["fs_suffix"], "page_size": r["page_size"], "layout": r["cfg"]["layout"], "steps": r["steps"],
                           "keys": r.get("n_keys"), "difference": r["msg"], "model": dict(zip(nm, vals)) if len(nm) == len(vals) else val})
-        rc = r.get("root_class")
-        if r["msg"] and rc and py_root_class(rc["existing"], rc["root"]) and ROOT_CLASS_ID in known_ids:
-            ctx.known_hit(ROOT_CLASS_ID)
-            dist["known_class_runs"] += 1
-            if rcls.get(id(r)) != "true":
-                common.corr_break(ctx, "KnownS3.c15_s3_object_root_unchecked disagrees with the driver's classification", {"input": inp, "root_class": rc})
-        elif r["msg"]:
+        if r["msg"]:
             ctx.violation("impl-violation", {"input": inp, "observed": r["msg"],
                                              "expected": "the S3 repository equals the filesystem repository driven by the same history"})
         else:
@@ -749,7 +766,8 @@ def run(ctx):
         rule="histories from vplib.hist.gen_history (create, stage, commit, upgrade, purge; all layouts incl. none) run on a filesystem "
              "repository and on the S3 stand-in per (prefix, page size) variant (prefixes: none, plain, nested, and spelled with trailing / only / "
              "leading / inner double slashes, all must-pass; plus flat layouts 0002 / 0006 / explicit roots with object roots that are string "
-             "prefixes of one another - obj1, obj10, obj1-copy - with purge and re-creation); distinct = distinct (history, prefix, page size); "
+             "prefixes of one another - obj1, obj10, obj1-copy - with purge and re-creation; object roots both stores must refuse for a new object: "
+             "nested in another object, in extensions/, with a `..` part); distinct = distinct (history, prefix, page size); "
              "non-trivial = more than two successful steps; every run compared step by step, store against store, read API against read API")
 
 
@@ -766,10 +784,8 @@ def replay(ctx, body):
         runs = run_case(ctx, case, pool)
     finally:
         pool.stop()
-    known_ids = {k["id"] for k in ctx.known}
     for r in runs:
-        rc = r.get("root_class")
-        if r["msg"] and not (rc and py_root_class(rc["existing"], rc["root"]) and ROOT_CLASS_ID in known_ids):
+        if r["msg"]:
             ctx.violation("impl-violation", {"input": inp, "observed": r["msg"],
                                              "expected": "the S3 repository equals the filesystem repository driven by the same history"})
     return ctx.finish(rule="replay of one recorded history")
